@@ -95,6 +95,8 @@ CORPUS = [
     ('assert', "exists f.txt : contents ( num-lines == 1+1 && every line : line-num <= 2 )"),
     ('assert', "stdout -transformed-by ( grep x | filter line-num == 1 ) ! is-empty"),
     ('before-assert', "file r2.txt = -stdout-from % gen\n -transformed-by TT"),
+    ('assert', "dir-contents d : -selection path '*a.txt' num-files == 1"), ('assert', "exists f.txt : path '*f.txt' && name 'f*' && stem 'f' && suffix '.txt' && suffixes '.*'"),
+    ('assert', "dir-contents d : -recursive any file : ( path ~ 'b.txt$' && name ~ '^b' )"),
     ('assert', '`the exit code` exit-code == 0'), ('setup', "`a description\n over two lines`\n# a comment\n\nfile dsc.txt = 'x'"), ('cleanup', '`d` run % prog'),
     ('cleanup', "file cl2.txt = -contents-of -rel-act f.txt -transformed-by replace 'l(i)' '\\1x'"),
     ('cleanup', "file cl3.txt = -stdout-from % gen\n -transformed-by ( filter contents matches 'x' | replace -at line-num == 1 x y )"),
